@@ -14,6 +14,7 @@ from __future__ import annotations
 
 import datetime as dt_
 
+from .. import worker
 from .. import core, obs, seeds
 from ..ref import calref, isoref
 
@@ -69,6 +70,12 @@ def check_string(acc, mods, s, exp_fn, kind, want_parse=True):
     kind: short class label (form).  Also checks pendulum.parse (non exact / exact / tz option)."""
     pendulum, fns = mods
     case = {"kind": "s", "s": s, "exp": core.jsonable(exp_fn), "form": kind}
+    with worker.guarded(acc, "parse", case):
+        _check_string(acc, mods, s, exp_fn, kind, want_parse, case)
+
+
+def _check_string(acc, mods, s, exp_fn, kind, want_parse, case):
+    pendulum, fns = mods
     for name, fn in fns.items():
         got = outcome(fn, s)
         acc.c["evaluations"] += 1
